@@ -8,9 +8,20 @@ use crate::parse::operation::parse_expression;
 use crate::parse::result::ParseResult;
 use crate::parse::result::{custom, expected_one_of};
 
+/// Keywords of Python which are not keywords of Mamba, these cannot be used as identifier
+/// in the output.
+const PYTHON_KEYWORDS: [&str; 12] = [
+    "assert", "async", "await", "del", "elif", "except", "finally", "global", "lambda", "nonlocal",
+    "try", "yield",
+];
+
 pub fn parse_id(it: &mut LexIterator) -> ParseResult {
     it.peek_or_err(
         &|it, lex| match &lex.token {
+            Token::Id(id) if PYTHON_KEYWORDS.contains(&id.as_str()) => {
+                let msg = format!("'{id}' is a keyword in Python and cannot be an identifier");
+                Err(Box::from(custom(&msg, lex.pos)))
+            }
             Token::Id(id) => {
                 let end = it.eat(&Token::Id(id.clone()), "identifier")?;
                 Ok(Box::from(AST::new(end, Node::Id { lit: id.clone() })))
